@@ -2,13 +2,13 @@ package main
 
 import (
 	"bytes"
-	"errors"
 	"crypto/hmac"
 	"crypto/md5"
 	"crypto/sha1"
 	"crypto/sha256"
 	"crypto/sha512"
 	"encoding/hex"
+	"errors"
 	"fmt"
 	"hash"
 	"io"
@@ -483,7 +483,6 @@ func streamChecks(r *common.Run) {
 		})
 	}
 }
-
 
 // failingReader delivers its data in one read and then reports a non-EOF error.
 type failingReader struct {
